@@ -59,6 +59,8 @@ def do_import(src, slug=None):
     for m in re.finditer(r"(go (?:test|run) [^\n`]+)", run):
         cmd = m.group(1).strip()
         cmd = re.sub(r"\s+(#.*|2>&1.*|>.*)$", "", cmd)
+        if cmd.count(")") > cmd.count("("):
+            cmd = cmd.rstrip(")").strip()
         break
     if not copies and cmd:
         # fallback: every *_test.go of the demo goes into the package the demo command names
